@@ -679,6 +679,30 @@ func applyMod(b []byte, mod string) []byte {
 		for k := range b {
 			b[k] = byte(k*37 + 11)
 		}
+	case mod == "cuttiles" || mod == "cutmeta":
+		// a complete header and root directory, the file ends before the tile data (before the metadata):
+		// every read of what lies behind starts beyond the end of the file
+		if h, err := pmtiles.DeserializeHeader(b[:127]); err == nil {
+			n := h.TileDataOffset
+			if mod == "cutmeta" {
+				n = h.MetadataOffset
+			}
+			if n < uint64(len(b)) {
+				b = b[:n]
+			}
+		}
+	case mod == "hugecount":
+		// a well-formed header whose (uncompressed) root directory announces 2^62 entries
+		if h, err := pmtiles.DeserializeHeader(b[:127]); err == nil {
+			root := append(bytes.Repeat([]byte{0x80}, 8), 0x40, 0x01, 0x01, 0x01, 0x01)
+			h.InternalCompression = pmtiles.NoCompression
+			h.RootOffset, h.RootLength = 127, uint64(len(root))
+			end := 127 + uint64(len(root))
+			h.MetadataOffset, h.MetadataLength = end, 0
+			h.LeafDirectoryOffset, h.LeafDirectoryLength = end, 0
+			h.TileDataOffset, h.TileDataLength = end, 8
+			b = append(append(pmtiles.SerializeHeader(h), root...), "tiledata"...)
+		}
 	case mod == "nometa":
 		// drop the metadata section (zero-length metadata is legal with uncompressed internals)
 		if h, err := pmtiles.DeserializeHeader(b[:127]); err == nil && h.InternalCompression == pmtiles.NoCompression &&
